@@ -195,9 +195,9 @@ func TestVerifC19Sqrt(t *testing.T) {
 	defer r.Watch(300*time.Second, nil)() // every evaluation here is micro- to milliseconds of arithmetic
 	tally := vkit.Tally{}
 	defer tally.Flush(r)
-	r.Rule = "PrimeSqrt: all odd primes p<2^12 (quick 2^11), all a in [0,p); ModSqrt: every ordered list of <=3 pairwise coprime factors from {4} U {odd primes<P} (P=24 quick, 48 thorough), all a in [0,n); oracle: existence by brute force, r^2=a mod n; non-trivial = distinct modulus/factor list"
+	r.Rule = "PrimeSqrt: all primes p<2^12 (quick 2^11), 2 included, all a in [0,p); ModSqrt: every ordered list of <=3 pairwise coprime factors from {2, 4} U {odd primes<P} (P=24 quick, 48 thorough), all a in [0,n); oracle: existence by brute force, r^2=a mod n; non-trivial = distinct modulus/factor list"
 	maxP := int64(vkit.Pick(1<<11, 1<<12))
-	for p := int64(3); p < maxP; p += 2 {
+	for p := int64(2); p < maxP; p++ {
 		if !c19isPrime(p) {
 			continue
 		}
@@ -227,7 +227,7 @@ func TestVerifC19Sqrt(t *testing.T) {
 	}
 	r.Sample(map[string]any{"fn": "PrimeSqrt", "a": 2, "p": 17})
 	P := int64(vkit.Pick(24, 48))
-	facs := []int64{4}
+	facs := []int64{2, 4}
 	for p := int64(3); p < P; p += 2 {
 		if c19isPrime(p) {
 			facs = append(facs, p)
@@ -251,6 +251,15 @@ func TestVerifC19Sqrt(t *testing.T) {
 	}
 	r.Bounds["modsqrt_factor_lists"] = len(lists)
 	for _, fl := range lists {
+		twos := 0
+		for _, f := range fl {
+			if f == 2 || f == 4 {
+				twos++
+			}
+		}
+		if twos > 1 {
+			continue // 2 and 4 are not coprime
+		}
 		if _, mine := r.Next(); !mine {
 			continue
 		}
